@@ -185,6 +185,8 @@ package flags
 //@   loop 1 invariant forall(k, 0, len(old(p.positional)) - len(p.positional), !isRem(old(p.positional)[k]))
 //@   loop 1 invariant len(old(p.positional)) - len(p.positional) < len(old(args)) - len(args) ==> len(p.positional) > 0 && isRem(p.positional[0])
 //@   loop 1 decreases len(args)
+//@   at call convert #1: len(old(p.positional)) - len(p.positional) == len(old(args)) - len(args) || isRem(p.positional[0])
+//@   at call Arg.isRemaining #1: ncalls(convert) == old(ncalls(convert)) + (len(old(args)) - len(args)) + 1 && callarg(convert, ncalls(convert) - 1, 1) == arg.value && callarg(convert, ncalls(convert) - 1, 0) == args[0] && arg == old(p.positional)[len(old(p.positional)) - len(p.positional)]
 //@   let m := ncalls(convert) - old(ncalls(convert))
 //@   ensures[C03,C09,C10] err != nil ==> p.err == err && same(p.retargs, old(p.retargs))
 //@   ensures[C09,C10] nfails(convert) == old(nfails(convert)) + ite(err != nil, 1, 0)
